@@ -108,3 +108,9 @@ claim("C02",
       "Static necessary conditions of 'closing and reopening presents the same wallet', for all paths: (ERR) no bucket read error in the keystore package is swallowed or turned into an absent key (found fetchCryptoKeys/fetchMasterHDKeys/duplicate-seed drops, fixed); (KEYS) every key any operation writes is read back by the open/load path (or export) and every key the loader needs is written at creation and import; (PROV) each field of the reloaded AddrManager derives from the read of its own key with the right branch polarity, and a reloaded address takes branch/index/key from one stored entry; (PAIR) for every mutating operation a durable key written in its transaction has its memory field refreshed before every successful return, and vice versa (argument-sensitive put summaries); (OPEN) opening loads every listed keystore under its own id, fails as a whole, and decrypts only behind DeriveKey(public passphrase) on the stored parameters.",
       "Trusted: go/ssa, goleveldb, frozen field↔key pairing table. NOT decided: equality of the reopened image with the running one as values for all histories; the store's own recursive bucket deletion (poc/wallet/db/ldb) — see seed C02-b; content of encrypted blobs.",
       "DESIGN.md §4 C02")
+
+claim("C01",
+      "writer/reader agreement over the keystore file (backward slices through read helpers, forward into put helpers) + branch-polarity typestate + edge-cut gates",
+      "Static necessary conditions of 'an exported keystore restores the same wallet': every file field import consumes is filled by export from the durable key it stands for and stored back under that key; the external and internal counters keep their branch through fetchChildNum, the file, putLastIndex/updateChildNum and memory, and each of import's two re-derivation loops derives from, labels and persists its own branch; nothing is stored unless the scrypt digest check with the caller's old passphrase and both secretbox opens succeeded; every consumed field is authenticated (4 known findings: Remark, Account, ExternalChildNum, InternalChildNum are not — D19, reproduced); a present keystore id stops the import before any write and the bucket is created fresh; delete removes bucket content, the bucket under its own name and the account id on every committing path.",
+      "Trusted: go/ssa, secretbox authenticity, scrypt digest check. NOT decided: equality of the re-derived addresses/keys as values (BIP32 arithmetic) for all seeds and counts; signing after unlock (C05-BIND); 'rejected import leaves the wallet unchanged' is C12's single-transaction rule.",
+      "DESIGN.md §4 C01")
